@@ -9,7 +9,7 @@ PROPERTY = 'C08'
 LEVEL = 'exploration'
 RULE = ('1-3 G1 programs under hostile layout (multi-line strings/comments, LF/CR/CRLF/U+2028/U+2029, exotic white '
         'space) or repository snippets, given distinct sourcepaths and printed one after the other by one printer '
-        'object as io.write does - or, for two programs, the second tree spliced as a statement into a function body / block of the first (nested sourcepath) - x printer in {pretty, minify, minify+drop_semi, minify+obfuscate, '
+        'object as io.write does - or, for two programs, the second tree spliced as a statement into a function body / block of the first, or one of its expressions replacing the expression of a statement of the first (nested sourcepath) - x printer in {pretty, minify, minify+drop_semi, minify+obfuscate, '
         'minify+obfuscate+globals} x comment capture. Oracle, for every yielded fragment with positive line and '
         'column: the reference token (or comment) of that source file starting at the reference offset of '
         '(line, column) is the fragment\'s token - equal text (strings after continuation stripping, comma runs: a '
@@ -134,6 +134,22 @@ def collect_nested(acc, opens, case, sources, printer_name, with_comments, where
     if outer is inner:
         acc.fail(None, case, {'bucket': 'one_tree_object_for_two_files'}, opens)
         return None, None
+    if where % 3 == 0:
+        # expression-level nesting: an expression of the second file (a sub-tree that emits nothing but
+        # tokens, carrying the second file's sourcepath) replaces the expression of a statement of the first
+        donors = [n for n in Walker().walk(inner) if type(n).__name__ == 'ExprStatement']
+        targets = [n for n in Walker().walk(outer) if type(n).__name__ == 'ExprStatement']
+        if donors and targets:
+            expr = donors[(where // 3) % len(donors)].expr
+            expr.sourcepath = sources[1][0]
+            targets[(where // 11) % len(targets)].expr = expr
+            try:
+                frags = [(None, f) for f in make_printer(printer_name)(outer)]
+            except Exception as e:
+                acc.fail(None, case, {'bucket': 'print_raises:' + type(e).__name__, 'error': repr(e)[:200]}, opens)
+                return None, None
+            acc.label('nested_expression')
+            return frags, refs
     hosts = [n for n in Walker().walk(outer) if type(n).__name__ in ('FuncDecl', 'FuncExpr', 'Block')]
     if not hosts:
         acc.skipped['no_host_for_nesting'] += 1
